@@ -1,55 +1,21 @@
-import BufrModel
+import Driver.OpsBits
 /-
   bvp_lean — line-protocol driver: one operation per input line, one canonical
-  result line per operation, computed by the *model*.
+  result line per operation, computed by the *model*.  Each model area has its own
+  Driver/OpsX.lean with a state record and a `stepX : St → List String → Option (St × String)`;
+  this file only chains them.
 -/
-open Bufr
+open Bufr Drv
 
 structure St where
-  w : W := W.new 0
-  r : R := R.ofBytes []
-
-def fmtW (w : W) : String := s!"{w.filled} {w.bitno} {w.maxDataLen}"
-def fmtR (r : R) : String := s!"{r.cur} {r.bitno}"
+  bits : BitsSt := {}
 
 def step (st : St) (line : String) : St × String :=
   let toks := (line.trimAscii.toString.splitOn " ").filter (· ≠ "")
-  match toks with
-  | ["reset"] => ({}, "ok")
-  | ["w.new", n] => match n.toNat? with
-    | some k => ({ st with w := W.new k }, "ok")
-    | none => (st, "bad-op")
-  | ["w.put", v, n] => match v.toNat?, n.toNat? with
-    | some v, some n =>
-      if n > 64 then (st, "abort")
-      else let w := st.w.putbits v n; ({ st with w := w }, fmtW w)
-    | _, _ => (st, "bad-op")
-  | ["w.putstr", h] => match parseHex h with
-    | some bs => let w := st.w.putstring bs; ({ st with w := w }, fmtW w)
-    | none => (st, "bad-op")
-  | ["w.padstr", h, e] => match parseHex h, e.toNat? with
-    | some bs, some e => let w := st.w.putPadString bs e; ({ st with w := w }, fmtW w)
-    | _, _ => (st, "bad-op")
-  | ["w.bytes"] => (st, toHex st.w.bytes)
-  | ["w.toreader"] =>
-    let bs := st.w.bytes
-    ({ st with r := R.ofBytes bs }, s!"{bs.length}")
-  | ["r.new", h] => match parseHex h with
-    | some bs => ({ st with r := R.ofBytes bs }, "ok")
-    | none => (st, "bad-op")
-  | ["r.get", n] => match n.toNat? with
-    | some n => let (v, e, r) := st.r.getbits n; ({ st with r := r }, s!"{v} {e} {fmtR r}")
-    | none => (st, "bad-op")
-  | ["r.skip", n] => match n.toNat? with
-    | some n => let (e, r) := st.r.skipBits n; ({ st with r := r }, s!"{e} {fmtR r}")
-    | none => (st, "bad-op")
-  | ["r.getstr", n] => match n.toNat? with
-    | some n =>
-      if n = 0 then (st, "bad-op") else
-      let (cs, e, r) := st.r.getstring n
-      ({ st with r := r }, s!"{if e < 0 then "-" else toHex cs} {if e < 0 then "err" else "ok"} {fmtR r}")
-    | none => (st, "bad-op")
-  | _ => (st, "bad-op")
+  if toks = ["reset"] then ({}, "ok") else
+  match stepBits st.bits toks with
+  | some (s, o) => ({ st with bits := s }, o)
+  | none => (st, "bad-op")
 
 partial def loop (h : IO.FS.Stream) (out : IO.FS.Stream) (st : St) : IO Unit := do
   let line ← h.getLine
